@@ -56,6 +56,28 @@ def view (snap buf : List KV) (lo hi : Bytes) : List KV :=
 def viewDir (snap buf : List KV) (lo hi : Bytes) (rev : Bool) : List KV :=
   if rev then (view snap buf lo hi).reverse else view snap buf lo hi
 
+/-- `a` comes strictly before `b` in an ascending (`rev = false`) / descending (`rev = true`) listing -/
+def KeyBefore (rev : Bool) (a b : KV) : Prop :=
+  if rev then Bytes.cmp b.1 a.1 = .lt else Bytes.cmp a.1 b.1 = .lt
+
+instance (rev : Bool) (a b : KV) : Decidable (KeyBefore rev a b) := by
+  unfold KeyBefore; exact inferInstance
+
+/-- strictly ascending / descending by key: in particular no key twice -/
+def StrictlyOrdered (rev : Bool) (l : List KV) : Prop := l.Pairwise (KeyBefore rev)
+
+instance (rev : Bool) (l : List KV) : Decidable (StrictlyOrdered rev l) := by
+  unfold StrictlyOrdered; exact inferInstance
+
+/-- a well formed map: strictly ascending keys -/
+abbrev IsMap (l : List KV) : Prop := StrictlyOrdered false l
+
+/-- snapshots never hold empty values (TiKV has no empty values; `KVSnapshot` filters them) -/
+def NoEmpty (l : List KV) : Prop := ∀ kv ∈ l, kv.2 ≠ []
+
+instance (l : List KV) : Decidable (NoEmpty l) := by
+  unfold NoEmpty; exact inferInstance
+
 /-- operations on the write buffer; `release`/`cleanup` address the innermost live staging level -/
 inductive BOp
   | set (k v : Bytes)
